@@ -105,6 +105,7 @@ func Reset(startNs uint64, g Geometry) *Env {
 	circuitbreaker.ClearStateChangeListeners()
 	_ = system.ClearRules()
 	_ = outlier.ClearRules()
+	outlier.VerifResetState()
 	stat.ResetResourceNodeMap()
 	stat.VerifResetInbound()
 	system_metric.SetSystemLoad(0)
